@@ -17,6 +17,15 @@ INT_RANGES = {"int8": (-2**7, 2**7-1), "int16": (-2**15, 2**15-1), "int32": (-2*
               "uint32": (0, 2**32-1), "int64": None, "uint64": None, "intp": None}
 
 
+RDIV = z3.Function("RDIV", R, R, R)
+def rdiv(a, b):
+    """real division: by a numeral it is linear arithmetic; by a symbolic divisor it is the uninterpreted RDIV(a, b) in code AND in specifications, so that
+    'the code computes the quotient the contract names' is decided by congruence instead of non-linear arithmetic. Facts about quotients that a proof needs
+    (b != 0 => RDIV(a, b) * b == a) are stated where they are needed (contracts / lemmas), not assumed globally."""
+    sb = z3.simplify(b)
+    return a / b if z3.is_rational_value(sb) or z3.is_int_value(sb) else RDIV(a, b)
+
+
 def f_isnan(a): return F.is_NaN(a)
 def f_bin(op, a, b): return z3.If(z3.Or(f_isnan(a), f_isnan(b)), F.NaN, F.Fin(op(F.val(a), F.val(b))))
 def f_cmp(op, a, b): return z3.And(F.is_Fin(a), F.is_Fin(b), op(F.val(a), F.val(b)))
@@ -43,6 +52,7 @@ class Val:
     vlen: object = None     # view length
     row: object = None      # row index when this is a row-view of a 2-D array
     rev: bool = False
+    cidx: object = None     # chunk index term when this is chunk `cidx` of a list of arrays
 
 
 @dataclass
@@ -102,14 +112,60 @@ class Engine:
         if kind == "inv_pres":
             m0 = re.match(r"\[loop(\d+)\.(\d+)\]", tag)
             if m0:
-                hyps = [h for h in hyps if h.get_id() not in self.scope_of or int(m0.group(2)) in self.scope_of[h.get_id()]]
+                lo_, ix_ = int(m0.group(1)), int(m0.group(2))
+                hyps = [h for h in hyps if h.get_id() not in self.scope_of or ix_ in self.scope_of[h.get_id()] or (lo_, ix_) in self.scope_of[h.get_id()]]
                 for term, idxs, o_ in getattr(self, "scoped", []):
                     if int(m0.group(1)) == o_ and int(m0.group(2)) in idxs: hyps.append(term)
-        hyps = hyps + list(self.defs)
+        hyps = hyps + self.relevant_defs(hyps, goal)
         what = tag.strip("[]").replace(" ", "_")
         base = f"{self.qualname}[{self.inst_name}]::{kind}.{what}@{st.path or '-'}"
         k = self.name_count.get(base, 0); self.name_count[base] = k + 1
         self.obls.append(Obligation(f"{base}#{k}", kind, hyps, goal, line))
+
+    # ---- cone of influence over the global definitions (conservative facts about fresh constants; dropping unreferenced ones is sound and keeps
+    #      e.g. a non-linear quotient that only flows into `out` away from the obligations that do not mention `out`)
+    def consts_of(self, t):
+        memo = self.__dict__.setdefault("_consts_memo", {})
+        tid = t.get_id()
+        if tid in memo: return memo[tid]
+        out = set(); stack = [t]; seen = set()
+        while stack:
+            x = stack.pop(); xid = x.get_id()
+            if xid in seen: continue
+            seen.add(xid)
+            if xid in memo and xid != tid: out |= memo[xid]; continue
+            if z3.is_quantifier(x): stack.append(x.body()); continue
+            if z3.is_app(x):
+                if x.num_args() == 0:
+                    if x.decl().kind() == z3.Z3_OP_UNINTERPRETED: out.add(x.decl().name())
+                else: stack.extend(x.children())
+        memo[tid] = out; return out
+
+    def relevant_defs(self, hyps, goal):
+        R = set(self.consts_of(goal))
+        for h in hyps: R |= self.consts_of(h)
+        info = self.__dict__.setdefault("_def_info", {})
+        pending = []
+        for d in self.defs:
+            did = d.get_id()
+            if did not in info:
+                lhs = None
+                if z3.is_eq(d) and d.arg(0).num_args() == 0 and z3.is_app(d.arg(0)) and d.arg(0).decl().kind() == z3.Z3_OP_UNINTERPRETED and "!" in d.arg(0).decl().name():
+                    lhs = d.arg(0).decl().name()
+                info[did] = (lhs, self.consts_of(d))
+            pending.append(d)
+        chosen = []; changed = True
+        while changed:
+            changed = False; rest = []
+            for d in pending:
+                lhs, cs = info[d.get_id()]
+                if (lhs is not None and lhs in R) or (lhs is None and (cs & R)):
+                    chosen.append(d); R |= cs; changed = True
+                else: rest.append(d)
+            pending = rest
+        order = {d.get_id(): i for i, d in enumerate(self.defs)}
+        chosen.sort(key=lambda d: order[d.get_id()])
+        return chosen
 
     def feasible(self, st):
         if not self.prune: return True
@@ -205,8 +261,10 @@ class Engine:
         if s in ("np.nan",): return Val("float", F.NaN)
         if s == "np.inf": return Val("float", self.specs.setdefault("__inf__", z3.Const("INF", F)))
         if s.startswith(("np.", "nb.")) and (s[3:] in INT_RANGES or s[3:] in ("float64", "float32", "bool_")): return Val("str", name=s[3:])
-        if isinstance(e.value, ast.Name) and e.attr == "dtype":
-            a = self.ev(st, e.value)
+        if e.attr == "dtype":
+            saved = self.in_spec; self.in_spec = True       # reading .dtype touches no element
+            try: a = self.ev(st, e.value)
+            finally: self.in_spec = saved
             if a.kind == "arr": return Val("str", name=a.dtype)
         raise Unsupported(f"attribute {s}")
 
@@ -243,7 +301,7 @@ class Engine:
             if op is ast.Add: return Val("real", ra + rb)
             if op is ast.Sub: return Val("real", ra - rb)
             if op is ast.Mult: return Val("real", ra * rb)
-            if op is ast.Div: return Val("real", ra / rb)
+            if op is ast.Div: return Val("real", rdiv(ra, rb))
         if a.kind == "int" and b.kind == "int":
             if op is ast.Add: return Val("int", a.z + b.z)
             if op is ast.Sub: return Val("int", a.z - b.z)
@@ -258,7 +316,10 @@ class Engine:
             if op is ast.Add: return Val("float", f_bin(lambda x, y: x + y, fa, fb))
             if op is ast.Sub: return Val("float", f_bin(lambda x, y: x - y, fa, fb))
             if op is ast.Mult: return Val("float", f_bin(lambda x, y: x * y, fa, fb))
-            if op is ast.Div: return Val("float", self.fdiv(fa, fb))
+            if op is ast.Div:
+                # numba's default error model is Python's: a float division by zero raises ZeroDivisionError (it does not return inf/nan)
+                if not self.in_spec: self.emit(st, "divzero", z3.Or(f_isnan(fb), F.val(fb) != 0), line)
+                return Val("float", self.fdiv(fa, fb))
             if sq: return Val("float", f_bin(lambda x, y: x * y, fa, fa))
         if a.kind == "opaque" and b.kind == "opaque":
             key = {ast.Add: "__vadd__", ast.Sub: "__vsub__"}.get(op)
@@ -271,7 +332,7 @@ class Engine:
     def fdiv(self, fa, fb):
         inf = self.fc("infq", F)
         return z3.If(z3.Or(f_isnan(fa), f_isnan(fb)), F.NaN,
-                     z3.If(F.val(fb) == 0, z3.If(F.val(fa) == 0, F.NaN, inf), F.Fin(F.val(fa) / F.val(fb))))
+                     z3.If(F.val(fb) == 0, z3.If(F.val(fa) == 0, F.NaN, inf), F.Fin(rdiv(F.val(fa), F.val(fb)))))
 
     def ev_Compare(self, st, e):
         left = self.ev(st, e.left); out = []
@@ -327,9 +388,15 @@ class Engine:
             if base.ndim == 2 and base.row is None:
                 if isinstance(e.slice, ast.Tuple):
                     i, j = e.slice.elts
+                    if isinstance(i, ast.Slice) and isinstance(j, ast.Slice):
+                        full = lambda sl: sl.lower is None and sl.upper is None
+                        if full(i) and i.step is None and full(j) and j.step is not None and ast.unparse(j.step) == "-1":
+                            return Val("arr", ref=base.ref, elem=base.elem, dtype=base.dtype, ndim=2, vlen=base.vlen, rev=not base.rev)      # column-reversed view
+                        raise Unsupported("2-D slicing")
                     if isinstance(i, ast.Slice) or isinstance(j, ast.Slice): raise Unsupported("2-D slicing")
                     n0, n1 = st.heap.shape[base.ref]
                     iz = self.norm_index(st, n0, self.ev(st, i).z, e.lineno); jz = self.norm_index(st, n1, self.ev(st, j).z, e.lineno)
+                    if base.rev: jz = n1 - 1 - jz
                     return Val(base.elem, z3.Select(st.heap.arr[base.ref], iz, jz))
                 if isinstance(e.slice, ast.Slice):
                     if e.slice.lower is not None or e.slice.step is not None: raise Unsupported("2-D slice form")
@@ -344,12 +411,13 @@ class Engine:
             return Val(base.elem, self.arr_read(st, base, i.z, e.lineno))
         if base.kind == "chunks":
             c = self.ev(st, e.slice)
+            if not self.in_spec: self.emit(st, "bounds", z3.And(c.z >= 0, c.z < base.z), e.lineno, "[chunk]")      # numba typed lists raise IndexError; negative would wrap
             return self.chunk_view(base, c.z)
         if base.kind == "tuple" and isinstance(e.slice, ast.Constant): return base.items[e.slice.value]
         raise Unsupported(f"subscript on {base.kind}")
 
     def chunk_view(self, chunks, c):
-        return Val("arr", term=chunks.term(c), elem=chunks.elem, dtype=chunks.dtype, vlen=chunks.items[0](c))
+        return Val("arr", term=chunks.term(c), elem=chunks.elem, dtype=chunks.dtype, vlen=chunks.items[0](c), cidx=c)
 
     # ------------------------------------------------------------------ calls
     def ev_Call(self, st, e):
@@ -533,6 +601,7 @@ class Engine:
         if arr.row is not None:
             j = self.norm_index(st, shape[1], idxs[0], line); st.heap.arr[arr.ref] = z3.Store(st.heap.arr[arr.ref], arr.row, j, z)
         elif len(shape) == 2:
+            if arr.rev: raise Unsupported("store through a column-reversed view")
             i = self.norm_index(st, shape[0], idxs[0], line); j = self.norm_index(st, shape[1], idxs[1], line)
             st.heap.arr[arr.ref] = z3.Store(st.heap.arr[arr.ref], i, j, z)
         else:
@@ -570,6 +639,10 @@ class Engine:
     def assign(self, st, target, val, line):
         if isinstance(target, ast.Name):
             if self.ghost_mode and target.id not in self.ghost_names: raise Unsupported(f"ghost code assigns program variable {target.id}")
+            # numba unifies the type of a local over the whole function (residual = 0 ... residual += x  makes it float64 from the start); the contract
+            # declares such locals in "var_types" and the kind-stability check at every loop end refuses silently diverging kinds
+            vt = self.contract.get("var_types", {}).get(target.id)
+            if vt is not None and val.kind != vt and val.kind in ("int", "bool", "float"): val = Val(vt, self.coerce(val, vt))
             if val.kind in ("int", "float", "bool", "opaque") and not z3.is_const(val.z) and not self.bmc:
                 c = self.fc(target.id, sort_of(val.kind)); self.defs.append(c == val.z); val = Val(val.kind, c)   # name the value: smaller terms, usable in triggers
             st.env[target.id] = val
@@ -702,7 +775,21 @@ class Engine:
             done_refs.add(v.ref)
             h.heap.arr[v.ref] = self.fc(a, h.heap.arr[v.ref].sort())
         h.pc.append(z3.And(c >= 0, c <= n_iter))
-        for inv in lc["invariant"]: h.pc.append(self.spec(h, inv))
+        # array-valued locals that are re-assigned inside the loop and live across iterations (arr = arr_list[arr_num]): the contract names what they are
+        # bound to at every loop head ("rebind"); it is checked on entry and at every loop end, and anything else is refused
+        rebind = lc.get("rebind", {})
+        for nme in sorted(self.assigned_names(s.body)):
+            v = st.env.get(nme)
+            if v is not None and v.kind in ("arr", "chunks") and nme not in rebind:
+                raise Unsupported(f"array-valued local {nme!r} is re-assigned inside loop {o} and live across iterations: needs a 'rebind' clause")
+        for nme, expr in rebind.items():
+            self.emit(st, "rebind", self.same_view(st.env[nme], self.ev_spec_val(st, expr)), s.lineno, f"[loop{o}.{nme}.init]")
+        for nme, expr in rebind.items(): h.env[nme] = self.ev_spec_val(h, expr)
+        for j, inv in enumerate(lc["invariant"]):
+            g = self.spec(h, inv); h.pc.append(g)
+            # "self_only": {j: [(loop, idx), ...]} - conjunct j (typically "the outputs written so far are right") is a hypothesis only for the preservation of
+            # the listed conjuncts; every other kind of obligation (bounds, post, lemma ...) still sees it. Dropping hypotheses is always sound.
+            if j in lc.get("self_only", {}): self.scope_of[g.get_id()] = set(lc["self_only"][j])
         b = h.fork(); b.pc.append(c < n_iter); b.path += f"/L{o}:"
         self.assign(b, s.target, bind(b, c), s.lineno)
         for hint in lc.get("unfold", []): b.pc.append(self.spec(b, hint))
@@ -712,7 +799,13 @@ class Engine:
         outs, exits = [], []
         for kind, e_st, val in self.run_block(b, s.body):
             if kind in ("normal", "continue"):
+                for nme in sorted(names):
+                    v0, v1 = h.env.get(nme), e_st.env.get(nme)
+                    if v0 is not None and v1 is not None and v0.kind != v1.kind and {v0.kind, v1.kind} <= {"int", "float", "bool"}:
+                        raise Unsupported(f"local {nme!r} changes kind {v0.kind}->{v1.kind} inside loop {o}: numba unifies it; declare it in the contract's var_types")
                 e_st.env[cname] = Val("int", c + 1)
+                for nme, expr in rebind.items():
+                    self.emit(e_st, "rebind", self.same_view(e_st.env[nme], self.ev_spec_val(e_st, expr)), s.lineno, f"[loop{o}.{nme}]")
                 for code in lc.get("ghost_at_end", []): self.run_ghost(e_st, code)
                 for j, inv in enumerate(lc["invariant"]): self.emit(e_st, "inv_pres", self.spec(e_st, inv), s.lineno, f"[loop{o}.{j}]")
             elif kind == "break": exits.append(("normal", e_st, None))
@@ -724,28 +817,68 @@ class Engine:
     def ex_While(self, st, s):
         o = self.loop_ord[id(s)]; lc = self.contract.get("loops", {}).get(o)
         if lc is None: raise Stale(f"no contract for while loop {o}")
+        if lc.get("iter") and lc["iter"] != ast.unparse(s.test): raise Stale(f"while loop {o} tests {ast.unparse(s.test)!r}, contract says {lc['iter']!r}")
         for j, inv in enumerate(lc["invariant"]): self.emit(st, "inv_init", self.spec(st, inv), s.lineno, f"[loop{o}.{j}]")
         names, arrays = self.modified(s.body); h = st.fork()
         for nme in sorted(names):
             v = h.env.get(nme)
             if v is not None and v.kind in ("int", "float", "bool", "opaque"): h.env[nme] = Val(v.kind, self.fc(nme, sort_of(v.kind)))
-        for a in arrays:
-            v = h.env[a]; h.heap.arr[v.ref] = self.fc(a, h.heap.arr[v.ref].sort())
+        done_refs = set()
+        for a in sorted(arrays):
+            v = h.env.get(a)
+            if v is None or v.kind != "arr" or v.ref is None: raise Unsupported(f"store to non-heap array {a}")
+            if v.ref in done_refs: continue
+            done_refs.add(v.ref); h.heap.arr[v.ref] = self.fc(a, h.heap.arr[v.ref].sort())
+        rebind = lc.get("rebind", {})
+        for nme in sorted(self.assigned_names(s.body)):
+            v = st.env.get(nme)
+            if v is not None and v.kind in ("arr", "chunks") and nme not in rebind:
+                raise Unsupported(f"array-valued local {nme!r} is re-assigned inside while loop {o} and live across iterations: needs a 'rebind' clause")
+        for nme, expr in rebind.items():
+            self.emit(st, "rebind", self.same_view(st.env[nme], self.ev_spec_val(st, expr)), s.lineno, f"[loop{o}.{nme}.init]")
+            h.env[nme] = self.ev_spec_val(h, expr)
         for inv in lc["invariant"]: h.pc.append(self.spec(h, inv))
         # guard evaluated at loop head (its obligations are emitted there)
-        gst = h.fork(); g = self.truthy(self.ev(gst, s.test))
-        b = h.fork(); b.pc.append(g)
+        gst = h.fork(); gst.path += f"/G{o}"; g = self.truthy(self.ev(gst, s.test))
+        b = h.fork(); b.pc.append(g); b.path += f"/L{o}:"
         dec0 = self.ev_spec_term(b, lc["decreases"])
         outs, exits = [], []
-        for kind, e_st, val in self.run_block(b, s.body):
-            if kind in ("normal", "continue"):
-                for j, inv in enumerate(lc["invariant"]): self.emit(e_st, "inv_pres", self.spec(e_st, inv), s.lineno, f"[loop{o}.{j}]")
-                d1 = self.ev_spec_term(e_st, lc["decreases"])
-                self.emit(e_st, "decreases", z3.And(dec0 >= 0, d1 < dec0), s.lineno, f"[loop{o}]")
-            elif kind == "break": exits.append(("normal", e_st, None))
-            else: outs.append((kind, e_st, val))
-        x = h.fork(); x.pc.append(z3.Not(g))
+        if self.feasible(b):
+            for kind, e_st, val in self.run_block(b, s.body):
+                if kind in ("normal", "continue"):
+                    for nme in sorted(names):
+                        v0, v1 = h.env.get(nme), e_st.env.get(nme)
+                        if v0 is not None and v1 is not None and v0.kind != v1.kind and {v0.kind, v1.kind} <= {"int", "float", "bool"}:
+                            raise Unsupported(f"local {nme!r} changes kind {v0.kind}->{v1.kind} inside while loop {o}: declare it in the contract's var_types")
+                    for nme, expr in rebind.items():
+                        self.emit(e_st, "rebind", self.same_view(e_st.env[nme], self.ev_spec_val(e_st, expr)), s.lineno, f"[loop{o}.{nme}]")
+                    for j, inv in enumerate(lc["invariant"]): self.emit(e_st, "inv_pres", self.spec(e_st, inv), s.lineno, f"[loop{o}.{j}]")
+                    d1 = self.ev_spec_term(e_st, lc["decreases"])
+                    self.emit(e_st, "decreases", z3.And(dec0 >= 0, d1 < dec0), s.lineno, f"[loop{o}]")
+                elif kind == "break": exits.append(("normal", e_st, None))
+                else: outs.append((kind, e_st, val))
+        x = h.fork(); x.pc.append(z3.Not(g)); x.path += f"/X{o}"
         return outs + exits + [("normal", x, None)]
+
+    def ev_spec_val(self, st, text):
+        saved = self.in_spec; self.in_spec = True
+        try: return self.ev(st, ast.parse(text, mode="eval").body)
+        finally: self.in_spec = saved
+
+    def same_view(self, a, b):
+        if a.kind != "arr" or b.kind != "arr": raise Unsupported("rebind of a non-array")
+        if a.cidx is not None and b.cidx is not None: return a.cidx == b.cidx
+        if a.ref is not None and a.ref == b.ref and a.off is None and b.off is None and a.row is None and b.row is None: return z3.BoolVal(True)
+        raise Unsupported("rebind: views are not comparable")
+
+    def assigned_names(self, body):
+        out = set()
+        for n in ast.walk(ast.Module(body=body, type_ignores=[])):
+            if isinstance(n, (ast.Assign, ast.AugAssign)):
+                for t in (n.targets if isinstance(n, ast.Assign) else [n.target]):
+                    for x in ([t] if isinstance(t, ast.Name) else (t.elts if isinstance(t, ast.Tuple) else [])):
+                        if isinstance(x, ast.Name): out.add(x.id)
+        return out
 
     def ev_spec_term(self, st, text):
         saved = self.in_spec; self.in_spec = True
